@@ -5,6 +5,7 @@ replay) of generated programs the whole database is read back and compared with 
 observed at the job boundary (job tree, task/args hashes, results, provenance flags, tags requested).
 """
 import json
+import collections
 import random
 
 from redun.backends.db import CallEdge, CallNode, Execution, Job as JobRow, Subvalue, Tag, Value as ValueRow
@@ -105,14 +106,28 @@ def audit(ctx, c, s, out, ast, wit, tag_nodes, cand_values):
         edges = sorted(ses.query(CallEdge).filter_by(parent_id=cn.call_hash).all(), key=lambda e: e.call_order)
         edge_children = [e.child_id for e in edges]
         if not info["status_was_cached"]:
-            # 2. Merkle hash from the observed children
-            # children whose call hash was known when this job finished (a forked "thread" child may still be
-            # running when its parent concludes; it is then not part of the parent's record)
-            kids = [k for k in children.get(info["id"], []) if k.get("call_hash") and k.get("settle_seq", 1 << 60) < info["settle_seq"]]
-            kid_hashes = [k["call_hash"] for k in kids]
-            h = hash_call_node(cn.task_hash, cn.args_hash, cn.value_hash, kid_hashes)
-            if h != cn.call_hash:
-                ctx.violation("call-hash-not-merkle", "job %s: hash of (task, args, result, sorted children) != call_hash" % info["task"], wit)
+            # 2. Merkle hash: the node's hash must be the hash of (task, args, result, recorded children), and the
+            # recorded children must be children the job really had.  Observed children that had settled with a call
+            # hash before this job settled MUST be recorded; children whose call hash became known without the harness
+            # seeing them settle first (forked threads, work abandoned when a failure ended the execution) MAY be.
+            kids_all = children.get(info["id"], [])
+            must = collections.Counter(k["call_hash"] for k in kids_all
+                                       if k.get("call_hash") and k.get("settle_seq", 1 << 60) < info["settle_seq"])
+            may = collections.Counter(h_ for h_ in ((k.get("call_hash") or getattr(k.get("job"), "call_hash", None)) for k in kids_all) if h_)
+            rec = collections.Counter(edge_children)
+            kids = [k for k in kids_all if k.get("call_hash") and k.get("settle_seq", 1 << 60) < info["settle_seq"]]
+            # children that run without provenance have a call hash that enters the parent's hash, but no CallNode row
+            # and hence no edge
+            def no_row(hh):
+                return ses.query(CallNode).filter_by(call_hash=hh).first() is None
+            norow_must = [hh for hh in must.elements() if no_row(hh)]
+            norow_may = [hh for hh in may.elements() if no_row(hh)]
+            cands = [edge_children, edge_children + norow_must, edge_children + norow_may]
+            if not any(hash_call_node(cn.task_hash, cn.args_hash, cn.value_hash, ch_) == cn.call_hash for ch_ in cands):
+                ctx.violation("call-hash-not-merkle", "job %s: call_hash is not the hash of (task, args, result, recorded children "
+                              "[+ children without provenance])" % info["task"], wit)
+            for hh in set(norow_may):
+                must.pop(hh, None)
             # result hash equals the hash of what the job was given
             if info["settled"][0] == "ok":
                 try:
@@ -123,14 +138,19 @@ def audit(ctx, c, s, out, ast, wit, tag_nodes, cand_values):
                 if rh is not None and rh != cn.value_hash and not has_unordered(info["settled_obj"]):
                     ctx.violation("call-node-result-hash-wrong", "job %s: recorded result hash differs from the hash of the "
                                   "value delivered to the job" % info["task"], wit)
-            # 3. edges mirror the recorded children, in call order
-            recorded = [(i, k["call_hash"]) for i, k in enumerate(kids)
-                        if ses.query(CallNode).filter_by(call_hash=k["call_hash"]).first() is not None]
-            exp_edges = sorted(set((i, hch) for i, hch in recorded))
-            got_edges = sorted((e.call_order, e.child_id) for e in edges)
-            # a CallNode row is written once; if an identical call was recorded earlier its edges are the earlier ones
-            if got_edges != exp_edges and set(e[1] for e in got_edges) != set(e[1] for e in exp_edges):
-                ctx.violation("call-edges-wrong", "job %s: edges %r, observed children %r" % (info["task"], got_edges, exp_edges), wit)
+            # 3. edges mirror the children the job had (a CallNode row is written once: an identical call recorded
+            # earlier has, by the Merkle property, the same children)
+            missing = must - rec
+            alien = rec - may
+            if missing and set(missing) - set(rec):
+                ctx.violation("call-edges-wrong", "job %s: %d observed child call(s) have no edge, e.g. %s" % (
+                    info["task"], sum(missing.values()), sorted(missing)[0][:8]), wit)
+            if alien and set(alien) - set(may):
+                ctx.violation("call-edges-wrong", "job %s: %d edge(s) to calls that are not children of the job, e.g. %s" % (
+                    info["task"], sum(alien.values()), sorted(alien)[0][:8]), wit)
+            orders = sorted(e.call_order for e in edges)
+            if orders != list(range(len(orders))):
+                ctx.violation("call-edges-wrong", "job %s: call_order values %r are not 0..n-1" % (info["task"], orders), wit)
             ctx.count("merkle_hashes_recomputed")
         else:
             h = hash_call_node(cn.task_hash, cn.args_hash, cn.value_hash, edge_children)
@@ -162,6 +182,25 @@ def audit(ctx, c, s, out, ast, wit, tag_nodes, cand_values):
             subs = links
         if links != subs:
             ctx.violation("subvalue-links-wrong", "value %s (%s): links %d, subvalues %d" % (vrow.value_hash[:8], vrow.type, len(links), len(subs)), wit)
+    # 6a. task-option tags of every job that finished with provenance
+    for jid in c.job_order:
+        info = c.jobs[jid]
+        job = info.get("job")
+        if job is None or not info.get("prov", True) or "settled" not in info or not info.get("call_hash"):
+            continue
+        try:
+            req = sorted(str(t[1]) for t in (job.get_option("tags", []) or []) if t and t[0] == "ot")
+        except Exception:
+            continue
+        if not req:
+            continue
+        got = sorted(str(t.value) for t in ses.query(Tag).filter_by(key="ot", entity_id=jid).all())
+        ctx.count("job_option_tags_checked")
+        if info.get("status_was_cached"):
+            ctx.count("job_option_tags_checked_on_cached_jobs")
+        if got != req:
+            ctx.violation("job-option-tag-missing", "job %s (%s) requested tags %r, recorded %r" % (
+                info["task"], "cached" if info.get("status_was_cached") else "executed", req, got), wit)
     # 6. tags requested by the program
     if tag_nodes and root.get("prov", True):
         for n in tag_nodes:
@@ -209,6 +248,20 @@ def shard(ctx, n, sub, depth):
             wf.expected_outcomes(ast)
         except wf.RefTooBig:
             continue
+        # task-option tags on a random subset of the calls (every job of such a call - executed, collapsed onto a twin or
+        # served from the cache - must carry them)
+        counter = [0]
+
+        def add_tag(cnode):
+            counter[0] += 1
+            if rnd.random() < 0.35:
+                o = dict(cnode[4]) if len(cnode) > 4 else {}
+                o["options"] = dict(o.get("options") or {}, tags=[["ot", "c%d" % counter[0]]])
+                while len(cnode) < 5:
+                    cnode.append({})
+                cnode[4] = o
+            return cnode
+        ast = wf.map_calls(json.loads(json.dumps(ast)), add_tag)
         tag_nodes = find_nodes(ast, "apply_tags", [])
         if i % 10 == 0:
             cand_values = set()
@@ -250,6 +303,7 @@ def main(ctx):
     ctx.require("failed_executions_audited", 10)
     ctx.require("executions_with_cached_jobs", 30)
     ctx.require("noprov_jobs_checked", 5)
+    ctx.require("job_option_tags_checked_on_cached_jobs", 20)
 
 
 def replay(ctx, witness):
